@@ -22,12 +22,15 @@
 //!                   | X=<targ>+<targ>.. explicit template arguments of the call (targ = <mods>/<layer> or `#` = a constant)
 //!           run as a generated RSSL program: every candidate returns its own struct `R<id>`, the call is
 //!           `assert_type<R..>(f(args))`; the verdict is read off the type checker's result: the `Call` node of the
-//!           accepted program / `AssertTypeFailed` / `FunctionArgumentTypeMismatch(ids, .., ambiguous)`.
-//! observe : sel <id>[<targ+targ..>] | amb <id,id,..> (ascending) | none | panic
+//!           accepted program / `AssertTypeFailed` / `FunctionArgumentTypeMismatch(ids, .., ambiguous)` /
+//!           `LvalueRequired` | `MutableRequired` (an overload was selected, then `check_output_arguments` refused an
+//!           argument given for an `out` / `inout` parameter).
+//! observe : sel <id>[<targ+targ..>] | amb <id,id,..> (ascending) | none | lvreq | mutreq | panic
 //! oracle  : (independent of the Lean model) the verdict is the same under every permutation of the declaration order;
 //!           a unique exactly-matching viable candidate is selected (several: all reported ambiguous);
-//!           the selected candidate is not dominated by another viable one, ranks taken from the real
-//!           `ImplicitConversion::find(..).get_rank()`.
+//!           the selected candidate is not dominated by another viable one (conversion quality from a hand-written
+//!           table); an accepted call passes no converted argument for an `out` / `inout` parameter, and a call is
+//!           refused for that reason only if a candidate that could have been selected needs such a conversion.
 //!
 //! request : C16.conv \t <src arg> \t <dst arg> <dst arg> ...
 //! observe : per destination  err | <NumericRank|panic>/<VectorRank|panic>><target type | panic>   (space separated)
@@ -900,6 +903,9 @@ enum Verdict {
     Sel(u32, Option<Vec<String>>),
     Amb(Vec<u32>),
     Unmatched,
+    /// an overload was selected and the call then refused by `check_output_arguments`:
+    /// true = `LvalueRequired`, false = `MutableRequired`
+    Refused(bool),
     Panic(String),
     Other(String),
 }
@@ -910,6 +916,8 @@ fn show_verdict(v: &Verdict) -> String {
         Verdict::Sel(i, Some(t)) => format!("sel {}<{}>", i, show_targs(t)),
         Verdict::Amb(ids) => format!("amb {}", ids.iter().map(|i| i.to_string()).collect::<Vec<_>>().join(",")),
         Verdict::Unmatched => "none".into(),
+        Verdict::Refused(true) => "lvreq".into(),
+        Verdict::Refused(false) => "mutreq".into(),
         Verdict::Panic(_) => "panic".into(),
         Verdict::Other(e) => format!("error:{}", e),
     }
@@ -922,6 +930,8 @@ enum Checked {
     AssertFailed(ir::Module, ir::TypeId),
     /// `FunctionArgumentTypeMismatch(overloads, _, _, ambiguous)`
     Mismatch(ir::Module, Vec<ir::FunctionId>, bool),
+    /// `LvalueRequired(_)` (true) / `MutableRequired(_)` (false)
+    PlaceRefused(bool),
     Other(String),
 }
 
@@ -949,6 +959,9 @@ fn type_check_src(src: &str) -> Checked {
             match e.0 {
                 rssl::typer::TyperError::AssertTypeFailed(_, _, received) => Checked::AssertFailed(e.1.module, received),
                 rssl::typer::TyperError::FunctionArgumentTypeMismatch(ids, _, _, amb) => Checked::Mismatch(e.1.module, ids, amb),
+                // the generated programs write to nothing but the call's out / inout arguments
+                rssl::typer::TyperError::LvalueRequired(_) => Checked::PlaceRefused(true),
+                rssl::typer::TyperError::MutableRequired(_) => Checked::PlaceRefused(false),
                 _ => Checked::Other(format!("type:{}", first)),
             }
         }
@@ -1153,6 +1166,7 @@ fn run_program(cands: &[Cand], args: &[ETy], opts: &Opts) -> Option<Verdict> {
                 Verdict::Unmatched
             }
         }
+        Ok(Checked::PlaceRefused(lv)) => Verdict::Refused(lv),
         Ok(Checked::Other(e)) => Verdict::Other(e),
     };
     Some(v)
@@ -1248,8 +1262,12 @@ struct Judged {
     /// per viable candidate: id and per-argument (numeric tier, dimension tier)
     viable: Vec<(u32, Vec<(u32, u32)>)>,
     exact: Vec<u32>,
-    /// candidates whose instantiation the oracle expects to panic (a vector of a non-scalar)
+    /// a panic of `ImplicitConversion::find` itself while the set was judged
     panic: Option<String>,
+    /// viable candidates with an `out` / `inout` parameter whose (bound) type is not the type of its argument
+    out_converted: Vec<u32>,
+    /// viable candidates with an `out` / `inout` parameter whose argument has a const type
+    out_const: Vec<u32>,
 }
 
 fn has_vec1(l: Layer) -> bool {
@@ -1333,7 +1351,7 @@ fn bind_templates(c: &Cand, args: &[ETy], explicit: &[Option<Ty>]) -> Option<Vec
 }
 
 fn judge_set(real: &mut Real, cands: &[Cand], args: &[ETy], explicit: &[Option<Ty>]) -> Judged {
-    let mut j = Judged { viable: Vec::new(), exact: Vec::new(), panic: None };
+    let mut j = Judged { viable: Vec::new(), exact: Vec::new(), panic: None, out_converted: Vec::new(), out_const: Vec::new() };
     // "a candidate whose parameter types equal the argument types exactly" is judged wherever type equality is what
     // the words say; with 1-vectors (`int` -> `int1` is as good as `int` -> `int`, see notes/C16.md) it is not.
     let judge_exact = !cands.iter().any(|c| c.params.iter().any(|p| has_vec1(p.ty.layer))) && !args.iter().any(|a| has_vec1(a.ty.layer));
@@ -1369,9 +1387,33 @@ fn judge_set(real: &mut Real, cands: &[Cand], args: &[ETy], explicit: &[Option<T
         if judge_exact && params.iter().zip(args).all(|(p, a)| p.ty.layer == a.ty.layer) {
             j.exact.push(c.id);
         }
+        // "an out or inout argument can not be the result of a conversion": the argument has to *be* of the
+        // parameter's type (qualifiers included), and it has to be writable
+        if params.iter().zip(args).any(|(p, a)| p.io != Io::In && p.ty != a.ty) {
+            j.out_converted.push(c.id);
+        }
+        if params.iter().zip(args).any(|(p, a)| p.io != Io::In && a.ty.mods.0 & 1 != 0) {
+            j.out_const.push(c.id);
+        }
         j.viable.push((c.id, ranks));
     }
     j
+}
+
+/// a viable candidate that converts no argument worse than `id` and at least one better (the oracle's own table)
+fn dominated_by(j: &Judged, id: u32) -> Option<u32> {
+    let (_, mine) = j.viable.iter().find(|(i, _)| *i == id)?;
+    for (d, theirs) in &j.viable {
+        if *d == id {
+            continue;
+        }
+        let no_worse = theirs.iter().zip(mine).all(|(t, m)| t <= m);
+        let better = theirs.iter().zip(mine).any(|(t, m)| t < m);
+        if no_worse && better {
+            return Some(*d);
+        }
+    }
+    None
 }
 
 /// the property's own checks on one verdict; Ok or the failure detail
@@ -1390,21 +1432,35 @@ fn oracle(j: &Judged, v: &Verdict) -> Result<(), String> {
             if *id == 99 {
                 return Err("a candidate hidden by an inner scope was selected".to_string());
             }
-            let Some((_, mine)) = j.viable.iter().find(|(i, _)| i == id) else {
+            if !j.viable.iter().any(|(i, _)| i == id) {
                 return Err(format!("selected candidate {} is not viable (an argument has no implicit conversion)", id));
-            };
+            }
             if !j.exact.is_empty() && !j.exact.contains(id) {
                 return Err(format!("candidate {:?} matches exactly but {} was selected", j.exact, id));
             }
-            for (d, theirs) in &j.viable {
-                if d == id {
-                    continue;
-                }
-                let no_worse = theirs.iter().zip(mine).all(|(t, m)| t <= m);
-                let better = theirs.iter().zip(mine).any(|(t, m)| t < m);
-                if no_worse && better {
-                    return Err(format!("selected candidate {} is dominated by viable candidate {}", id, d));
-                }
+            if let Some(d) = dominated_by(j, *id) {
+                return Err(format!("selected candidate {} is dominated by viable candidate {}", id, d));
+            }
+            if j.out_converted.contains(id) {
+                return Err(format!("accepted call of candidate {} converts an argument given for an out / inout parameter", id));
+            }
+            if j.out_const.contains(id) {
+                return Err(format!("accepted call of candidate {} passes a const object for an out / inout parameter", id));
+            }
+        }
+        Verdict::Refused(lvalue) => {
+            // neither selected, ambiguous nor unmatched: legitimate only as the refusal of an output argument of a
+            // candidate that could have been the selected one
+            if !j.exact.is_empty() {
+                return Err(format!("candidate {:?} matches exactly but the call is refused for an output argument", j.exact));
+            }
+            let pool = if *lvalue { &j.out_converted } else { &j.out_const };
+            if !pool.iter().any(|id| dominated_by(j, *id).is_none()) {
+                return Err(format!(
+                    "call refused (`{}`) but no undominated viable candidate {}",
+                    if *lvalue { "lvalue is required" } else { "non-const is required" },
+                    if *lvalue { "converts an output argument" } else { "receives a const output argument" }
+                ));
             }
         }
         Verdict::Amb(ids) => {
@@ -1589,6 +1645,8 @@ impl Runner {
             Verdict::Sel(..) => "verdict:selected",
             Verdict::Amb(_) => "verdict:ambiguous",
             Verdict::Unmatched => "verdict:unmatched",
+            Verdict::Refused(true) => "verdict:refused-lvalue-required",
+            Verdict::Refused(false) => "verdict:refused-non-const-required",
             Verdict::Panic(_) => "verdict:panic",
             Verdict::Other(_) => "verdict:other-error",
         };
@@ -1886,6 +1944,70 @@ fn random_template_set(rng: &mut Rng, hist: &mut Hist) -> (Vec<Cand>, Vec<Ty>) {
     }
     hist.add(&format!("tset:k{}", cands.len()));
     hist.add(&format!("tset:templates{}", cands.iter().filter(|c| !c.tkinds.is_empty()).count()));
+    (cands, centre)
+}
+
+/// `int` <-> `int1`: the one reshaping `ImplicitConversion::find` allows for an lvalue destination
+fn twin_layer(l: Layer) -> Layer {
+    match l {
+        Layer::Scalar(s) => Layer::Vector(s, 1),
+        Layer::Vector(s, 1) => Layer::Scalar(s),
+        l => l,
+    }
+}
+
+/// candidate sets around output parameters: 1-3 overloads with 1-2 parameters over a scalar / 1-vector / 2-vector
+/// centre; each parameter is `out` / `inout` with probability 1/2 and has the centre type, its scalar <-> 1-vector
+/// twin, the same shape over another scalar kind, or (templates) `T` / `vector<T, 1>`
+fn output_set(rng: &mut Rng, hist: &mut Hist) -> (Vec<Cand>, Vec<Ty>) {
+    let k = rng.range(1, 3) as usize;
+    let arity = rng.range(1, 2) as usize;
+    let centre: Vec<Ty> = (0..arity)
+        .map(|_| {
+            let s = *rng.pick(GRID_SCALARS);
+            let layer = match rng.below(5) {
+                0 | 1 => Layer::Scalar(s),
+                2 | 3 => Layer::Vector(s, 1),
+                _ => Layer::Vector(s, 2),
+            };
+            Ty { mods: Mods(0), layer }
+        })
+        .collect();
+    let mut cands: Vec<Cand> = Vec::new();
+    let mut tries = 0;
+    while cands.len() < k && tries < 100 {
+        tries += 1;
+        let is_template = rng.chance(1, 4);
+        let params: Vec<Param> = centre
+            .iter()
+            .map(|c| {
+                let io = match rng.below(4) {
+                    0 | 1 => Io::In,
+                    2 => Io::Out,
+                    _ => Io::InOut,
+                };
+                let layer = match rng.below(8) {
+                    0..=2 => c.layer,
+                    3 | 4 => twin_layer(c.layer),
+                    5 => with_scalar(c.layer, *rng.pick(GRID_SCALARS)),
+                    6 if is_template => Layer::TVar(0),
+                    7 if is_template => Layer::TVec(0, 1),
+                    _ => c.layer,
+                };
+                Param { io, ty: Ty { mods: Mods(0), layer } }
+            })
+            .collect();
+        let tkinds = if is_template { vec![true] } else { Vec::new() };
+        let concrete = !params.iter().any(|p| is_template_layer(p.ty.layer));
+        if concrete && cands.iter().any(|c| c.params == params) {
+            continue;
+        }
+        if !concrete && cands.iter().any(|c| c.params == params && c.tkinds == tkinds) {
+            continue;
+        }
+        cands.push(Cand { id: cands.len() as u32, non_default: arity, params, tkinds });
+    }
+    hist.add(&format!("oset:k{}", cands.len()));
     (cands, centre)
 }
 
@@ -2259,7 +2381,12 @@ pub fn run(args: &Args, out: &mut Out) {
             // the compiler's own templates (`T Load<T>(uint)`, `Store(uint, T)`, `DispatchMesh(.., T)`): explicit type arguments
             let mut targs = Vec::new();
             if builtins.iter().any(|b| !b.tkinds.is_empty()) && rng.chance(1, 2) {
-                targs.push(Some(if rng.chance(1, 4) { off_grid_ty(&mut rng) } else { grid_ty(&mut rng) }));
+                // (a constant for the type parameter: `b.Load<4>(0)` - not viable since /repo 5dca4fc)
+                targs.push(if rng.chance(1, 6) {
+                    None
+                } else {
+                    Some(if rng.chance(1, 4) { off_grid_ty(&mut rng) } else { grid_ty(&mut rng) })
+                });
             }
             r.all_orders(&users, &a, &Opts { with_defs: false, path: path.clone(), targs, form: 0 }, out);
         }
@@ -2281,13 +2408,39 @@ pub fn run(args: &Args, out: &mut Out) {
             }
         }
     }
+    // (9) output arguments: sets in which an `out` / `inout` parameter meets an lvalue of its own type, of the 1-vector /
+    //     scalar twin of its type (ranked Exact/Exact by the resolution, refused afterwards: the reshaped argument is an
+    //     rvalue), of another type, or a const object - next to `in` overloads and templates (`out T`, `out vector<T, 1>`)
+    let no = if args.n.is_some() { n / 2 } else if args.thorough() { 3000 } else { 400 };
+    let opaths = [Path::Free, Path::Free, Path::Method, Path::Ns, Path::MethodIntLast, Path::TStruct, Path::NsInner];
+    for i in 0..no {
+        let (cands, centre) = output_set(&mut rng, &mut hist);
+        let path = opaths[(i as usize) % opaths.len()].clone();
+        for t in 0..3 {
+            let a: Vec<ETy> = centre
+                .iter()
+                .map(|c| {
+                    let s = scalar_of(c.layer);
+                    match (t, rng.below(8)) {
+                        (0, _) => ETy { lvalue: true, ty: *c },
+                        (_, 0..=2) => ETy { lvalue: true, ty: Ty { mods: Mods(0), layer: twin_layer(c.layer) } },
+                        (_, 3) => ETy { lvalue: true, ty: Ty { mods: Mods(1), layer: c.layer } },
+                        (_, 4) => ETy { lvalue: false, ty: *c },
+                        (_, 5) => ETy { lvalue: true, ty: Ty { mods: Mods(0), layer: Layer::Vector(s, 2) } },
+                        _ => ETy { lvalue: true, ty: *c },
+                    }
+                })
+                .collect();
+            r.all_orders(&cands, &a, &Opts { with_defs: false, path: path.clone(), targs: Vec::new(), form: (i % 3) as u8 }, out);
+        }
+    }
     for (k, v) in &hist.0 {
         for _ in 0..*v {
             r.hist.add(k);
         }
     }
     out.stat(&format!(
-        "{{\"conv_universe\":{},\"conv_pairs\":{},\"single_param_pairs\":{},\"random_sets\":{},\"tuples_per_set\":{},\"path_sets\":{},\"template_sets\":{},\"intrinsic_cases\":{},\"compiles\":{},\"hist\":{}}}",
+        "{{\"conv_universe\":{},\"conv_pairs\":{},\"single_param_pairs\":{},\"random_sets\":{},\"tuples_per_set\":{},\"path_sets\":{},\"template_sets\":{},\"intrinsic_cases\":{},\"output_sets\":{},\"compiles\":{},\"hist\":{}}}",
         uni.len(),
         uni.len() * uni.len(),
         pairs,
@@ -2296,6 +2449,7 @@ pub fn run(args: &Args, out: &mut Out) {
         np,
         nt,
         ni,
+        no,
         r.compiles,
         r.hist.json()
     ));
